@@ -891,7 +891,11 @@ func (x *Exec) unbox(payload Value, t types.Type) Value {
 		return fnv
 	}
 	ls := flatten(t)
-	if len(ls) == 1 {
+	_, isStruct := t.Underlying().(*types.Struct)
+	if isStruct && isOpaqueStruct(t) {
+		isStruct = false
+	}
+	if len(ls) == 1 && !isStruct {
 		if ls[0].Sort == RefS {
 			return p
 		}
@@ -939,7 +943,7 @@ func (f *Frame) typeAssert(st *State, ins *ssa.TypeAssert) Value {
 			}
 		}
 		if ok == nil {
-			ok = B.UF("implements_"+opaqueSortName(ins.AssertedType), smt.Bool, typ)
+			ok = x.implementsTerm(typ, ins.AssertedType)
 		}
 		val = iv
 	} else {
@@ -981,4 +985,57 @@ func (x *Exec) iteLoose(c *smt.Term, a, b Value) (res Value) {
 		}
 	}()
 	return x.ite(c, a, b)
+}
+
+// implementsTerm: "the dynamic type typ implements the interface type J" as a term: decided for a
+// constant type, distributed over a case split, otherwise an uninterpreted predicate that is given
+// its value on every concrete type the run knows (now and later, see typeID).
+func (x *Exec) implementsTerm(typ *smt.Term, J types.Type) *smt.Term {
+	B := x.B
+	iface := J.Underlying().(*types.Interface)
+	if typ.Op == "int" {
+		if typ.Val == 0 {
+			return B.False()
+		}
+		if dt := x.typeOf[int64(typ.Val)]; dt != nil {
+			return B.BoolC(types.Implements(dt, iface))
+		}
+	}
+	if typ.Op == "ite" && len(typ.Args) == 3 {
+		return B.Ite(typ.Args[0], x.implementsTerm(typ.Args[1], J), x.implementsTerm(typ.Args[2], J))
+	}
+	name := "implements_" + opaqueSortName(J)
+	if x.implIfaces == nil {
+		x.implIfaces = map[string]types.Type{}
+	}
+	if _, seen := x.implIfaces[name]; !seen {
+		x.implIfaces[name] = J
+		x.assumeGlobal(B.Not(B.UF(name, smt.Bool, B.IntC(0))))
+		for id, dt := range x.typeOf {
+			x.assumeGlobal(B.Eq(B.UF(name, smt.Bool, B.IntC(id)), B.BoolC(types.Implements(dt, iface))))
+		}
+	}
+	return B.UF(name, smt.Bool, typ)
+}
+
+// assumeIfaceTyped: a value of static interface type t (of a package modelled field by field)
+// read from memory or received as a parameter is nil or has a dynamic type that implements t.
+func (x *Exec) assumeIfaceTyped(v Value, t types.Type) {
+	n, ok := t.(*types.Named)
+	if !ok || n.Obj().Pkg() == nil || !TransparentPkgs[n.Obj().Pkg().Path()] {
+		return
+	}
+	iface, ok := n.Underlying().(*types.Interface)
+	if !ok || iface.NumMethods() == 0 {
+		return
+	}
+	s, ok := v.(*Struct)
+	if !ok || len(s.Fields) != 2 {
+		return
+	}
+	typ, ok := s.Fields[0].(*smt.Term)
+	if !ok {
+		return
+	}
+	x.assumeGlobal(x.B.Or(x.B.Eq(typ, x.B.IntC(0)), x.implementsTerm(typ, t)))
 }
